@@ -512,6 +512,20 @@ def h_generator_old_shared():
     _gen(SHARED, False)
 
 
+def h_generator_old_private_pytree_twin():
+    """A private annotation object L is the leaf type of a PyTree annotation and then the annotation of an old-style generator (whatever
+    jaxtyping does to L concerns L alone); a PyTree annotation over a freshly written, identically spelled leaf type is unaffected."""
+    L = Float[np.ndarray, "vf12priv"]
+    got0 = obs.verdict([np.zeros((1,), dtype="float32")], PyTree[L])
+    _gen(L, False)
+    fresh = PyTree[Float[np.ndarray, "vf12priv"]]
+    got = obs.verdict([np.zeros((3, 3), dtype="int32")], fresh)
+    if got0 != "True" or got != "False":
+        raise Violation("probe", {"history": ["generator-old-private-pytree-twin"]},
+                        f"PyTree[L] with L = Float[ndarray,'vf12priv'] on a float32 (1,) leaf: {got0}; after L was used on an old-style generator, a freshly written "
+                        f"PyTree[Float[ndarray,'vf12priv']] gave {got} for an int32 (3,3) leaf (expected False)")
+
+
 def h_generator_old_unpickled():
     """An annotation that came out of pickle is private to whoever loaded it: using it on an old-style generator
     must not change what an independently loaded equal annotation accepts."""
@@ -750,7 +764,7 @@ HISTORY_OPS = {
     "check-pass": h_check_pass, "check-fail": h_check_fail, "check-raise": h_check_raise, "toplevel-check": h_toplevel_check,
     "pytree-pass": h_pytree_pass, "pytree-fail": h_pytree_fail, "pytree-q-misuse": h_pytree_q_misuse, "pytree-unbound-composite": h_pytree_unbound_composite,
     "decorate-shared-typeguard": h_decorate_shared_tg, "decorate-shared-beartype": h_decorate_shared_bt, "decorate-shared-old": h_decorate_shared_old,
-    "generator-old-unpickled": h_generator_old_unpickled, "generator-old-inner-outer": h_generator_old_inner_outer, "generator-old-pytree": h_generator_old_pytree, "generator-new-shared": h_generator_new_shared, "generator-old-fresh": h_generator_old_fresh, "generator-old-shared": h_generator_old_shared,
+    "generator-old-unpickled": h_generator_old_unpickled, "generator-old-private-pytree-twin": h_generator_old_private_pytree_twin, "generator-old-inner-outer": h_generator_old_inner_outer, "generator-old-pytree": h_generator_old_pytree, "generator-new-shared": h_generator_new_shared, "generator-old-fresh": h_generator_old_fresh, "generator-old-shared": h_generator_old_shared,
     "resubscribe": h_resubscribe, "pickle": h_pickle, "hook": h_hook, "hook-exception": h_hook_exception, "config-roundtrip": h_config_roundtrip,
     "pytree-union-inner-structured": h_pytree_union_inner_structured, "protocol-array-pass": h_protocol_array_pass, "address-reuse": h_address_reuse, "generator-none-suspended": h_generator_none_suspended, "forward-reference-early-call": h_forward_reference_early_call,
     "call-ok": h_call_ok, "call-ill": h_call_ill, "call-raises": h_call_raises, "thread-activity": h_thread_activity, "name-format": h_name_format,
